@@ -57,7 +57,6 @@ F_IFACE = "dbn-interface-heads-vs-tails"
 F_BWD = "dbn-backward-interface-evidence"
 F_ISOL = "dbn-isolated-variable"
 F_RESET = "dbn-query-resets-belief"
-F_TORCH = "torch-cpd-constructor-aliases-values"  # reported, not (yet) listed
 
 SPEC_LIMIT = 6000
 
@@ -1006,17 +1005,8 @@ def run_init(case, drv):
         for c in dbn.cpds[len(given):]:
             c.values[...] = 0.5
         if [[float(x) for x in c.values.ravel()] for c in dbn.cpds[:len(given)]] != snap:
-            detail = {"what": "writing into a completed CPD changed the CPD it was copied from"}
-            if case.get("backend") == "torch":
-                # exact class: torch backend, where the TabularCPD constructor keeps the caller's tensor (probe)
-                import torch
-                from pgmpy.factors.discrete import TabularCPD
-                probe = torch.tensor([[0.25], [0.75]], dtype=torch.float64)
-                pc = TabularCPD("probe", 2, probe)
-                probe[0, 0] = 9.0
-                if float(pc.values.ravel()[0]) == 9.0:
-                    return bad("shared-buffer", dict(detail, backend="torch", cause="TabularCPD(values=<tensor>) aliases its input"),
-                               finding=F_TORCH, key=key, tags=tags + ["torch-alias"])
+            detail = {"what": "writing into a completed CPD changed the CPD it was copied from",
+                      "backend": case.get("backend", "numpy")}
             return bad("shared-buffer", detail, key=key, tags=tags)
     worst = None
     for c in added:
